@@ -6,7 +6,7 @@ import ast
 from typing import Dict, List, Optional, Set, Tuple
 
 from ..dispatch import Case, find_chains
-from ..flow import always_raises
+from ..flow import always_raises, nonempty_test
 from ..index import AnalysisError, Func, dotted, last_name, norm_stmt, parent
 from ..mustflow import run_must
 from ..report import Finding, RuleResult
@@ -308,7 +308,7 @@ def rule_callboundary(ctx, prop: str) -> RuleResult:
     run = cls.methods.get("run")
     if run is None:
         raise AnalysisError("anchor vanished: PrecisionAnalysis.run")
-    raises = any(isinstance(n, ast.If) and "_errors" in ast.unparse(n.test) and always_raises(n.body) for n in run.body_nodes())
+    raises = any(isinstance(n, ast.If) and nonempty_test(n.test, "_errors") and always_raises(n.body) for n in run.body_nodes())
     res.instances += 1
     res.ob(raises)
     if not raises:
